@@ -837,7 +837,7 @@ def backend_checks(ld, r, tier, prop):
     import warnings
     fails, runs = [], 0
     quick = tier == 'quick'
-    backends = ['t', False, 'concurrent_mp', 'dill_mp', 'mp'] if quick else ['t', 'thread', False, 'mp', 'dill_mp', 'multiprocessing', 'concurrent_mp']
+    backends = ['t', False, 'concurrent_mp', 'dill_mp', 'mp', 'multiprocessing'] if quick else ['t', 'thread', False, 'mp', 'dill_mp', 'multiprocessing', 'concurrent_mp']
     classes = ['FnFail', 'Empty', 'KeyError', 'FilterException', 'FnFailBase', 'CancelledError', 'IndexError', 'StopAsyncIteration',
                # classes the library itself raises and catches internally (items() protocol, len(), keys(), asserts)
                'NotImplementedError', 'AttributeError', 'TypeError', 'AssertionError', 'ValueError']
@@ -1072,7 +1072,7 @@ def backend_cancellation(ld, r, tier):
     n = 16
     with warnings.catch_warnings():
         warnings.simplefilter('ignore')
-        for be in (['t', 'dill_mp', 'concurrent_mp'] if tier == 'quick' else ['t', 'dill_mp', 'concurrent_mp', 'mp', 'multiprocessing']):
+        for be in ['t', 'dill_mp', 'concurrent_mp', 'mp', 'multiprocessing']:
             for how in ('close', 'drop'):
                 for api in ('parmap', 'prefetch'):
                     w, b, k = 1, 8, 1          # one worker, eight submitted computations: when the first result arrives one is running, the others pending
